@@ -18,7 +18,7 @@ OPS = ["cumsum", "np.cumsum", "add.acc", "subtract.acc", "xor.acc", "sort", "uni
 FLOOR_TAGS = ["op:" + o for o in OPS] + ["kind:b", "kind:i", "kind:u", "kind:f", "norows", "allempty", "e-first", "e-last", "e-mid", "e-consec", "e-none",
                                          "recv:fresh", "recv:lazyrows", "recv:lazycols+2", "diff-n>len", "v:extreme", "v:dups"]
 FLOOR_MONITORS = ["c07:compare", "inv:ragged"]
-N_RANDOM = {"quick": 12000, "thorough": 400000}
+N_RANDOM = {"quick": 36000, "thorough": 400000}
 
 
 def setup(lib):
